@@ -82,7 +82,7 @@ pfo_equals = dict(
 __CPROVER_requires(__CPROVER_is_fresh(self, sizeof(*self)) && __CPROVER_is_fresh(other, sizeof(*other)))
 __CPROVER_assigns()
 __CPROVER_ensures(RET ==> (self->format_pattern == other->format_pattern && self->timestamp_pattern == other->timestamp_pattern && self->timestamp_timezone == other->timestamp_timezone && B(self->add_metadata_to_multi_line_logs) == B(other->add_metadata_to_multi_line_logs))) /*@ C12,C16 "a formatter is shared only between loggers whose pattern, timestamp pattern, time zone and multi-line setting are all the same: a statement is never rendered with another logger's pattern" */
-__CPROVER_ensures((self->format_pattern == other->format_pattern && self->timestamp_pattern == other->timestamp_pattern && self->timestamp_timezone == other->timestamp_timezone && B(self->add_metadata_to_multi_line_logs) == B(other->add_metadata_to_multi_line_logs)) ==> RET)
+/* the converse (equal options compare equal) is not demanded: a stricter comparison only means fewer shared formatter objects */
 ''')],
     harness='  PFO* a; PFO* b; PFO_equals(a, b);',
     snapshot=[('a_fp', 'self->format_pattern'), ('a_tp', 'self->timestamp_pattern'), ('a_tz', 'self->timestamp_timezone'), ('a_ml', 'B(self->add_metadata_to_multi_line_logs)'), ('b_fp', 'other->format_pattern'), ('b_tp', 'other->timestamp_pattern'), ('b_tz', 'other->timestamp_timezone'), ('b_ml', 'B(other->add_metadata_to_multi_line_logs)')],
